@@ -30,8 +30,9 @@ func runC16(x *Ctx) {
 	x.C.Rule("C16.R2", "byte layout agreement between Parse, FromPubKey and PubKey", 3)
 	x.C.Rule("C16.R3", "Parse guards; no other cause of rejection", 6)
 	x.C.Rule("C16.R4", "PubKey only accepts the canonical identifier of the key; unmarshallers refuse only what the library refuses; ToPubKey goes through PubKey", 5)
-	x.C.Rule("C16.R5", "nil result of UnmarshalCompressed is rejected", 1)
+	x.C.Rule("C16.R5", "nil result of UnmarshalCompressed is rejected; the unmarshallers keep no state", 2)
 	x.C.Rule("C16.R6", "point coordinates are serialised with a fixed width", 1)
+	statelessUnmarshallers(x)
 
 	parse := x.fn("C16.R1", "did.Parse")
 	pub := x.fn("C16.R1", "(did.DID).PubKey")
